@@ -15,62 +15,7 @@ pub struct LocalId { pub v: u32 }
 //@@EXTRACT s_task@@
 #[verifier::allow(autoderive_clone_without_spec)]
 //@@EXTRACT s_profile@@
-pub type OverIntervalTimeTableType<Var> = Vec<ResourceProfile<Var>>;
-pub type TT<Var> = Seq<ResourceProfile<Var>>;
-
-// ---- meaning: a time-table is a sequence of rectangles; its height at a time point is the sum of the heights of
-// the rectangles that cover the point (for a disjoint table: the height of the one that covers it, or 0) ----
-pub open spec fn covers<Var>(p: ResourceProfile<Var>, t: int) -> bool { p.start <= t <= p.end }
-pub open spec fn ht<Var>(tt: TT<Var>, t: int) -> int
-    decreases tt.len()
-{
-    if tt.len() == 0 { 0 } else { ht(tt.drop_last(), t) + (if covers(tt.last(), t) { tt.last().height as int } else { 0 }) }
-}
-// sorted by time, pairwise disjoint, non-empty rectangles strictly inside the i32 range (A-TIMES)
-pub open spec fn wf<Var>(tt: TT<Var>) -> bool {
-    &&& forall|i: int| #![trigger tt[i]] 0 <= i < tt.len() ==> i32::MIN < tt[i].start <= tt[i].end < i32::MAX
-    &&& forall|i: int, j: int| #![trigger tt[i], tt[j]] 0 <= i < j < tt.len() ==> tt[i].end < tt[j].start
-}
-// every rectangle of `d` lies inside [lo, hi]
-pub open spec fn within<Var>(d: TT<Var>, lo: int, hi: int) -> bool {
-    forall|k: int| #![trigger d[k]] 0 <= k < d.len() ==> lo <= d[k].start && d[k].end <= hi
-}
-pub open spec fn in_part(ur: Range<i32>, t: int) -> bool { ur.start <= t < ur.end }
-// `new` extends `old` by rectangles inside [lo, hi] whose height there is `base` plus the usage inside the added part
-pub open spec fn extends_by<Var>(old_s: TT<Var>, new_s: TT<Var>, lo: int, hi: int, ur: Range<i32>, base: int, usage: int) -> bool {
-    &&& old_s.len() <= new_s.len()
-    &&& new_s.subrange(0, old_s.len() as int) == old_s
-    &&& ({ let d = new_s.subrange(old_s.len() as int, new_s.len() as int);
-           &&& wf(d)
-           &&& within(d, lo, hi)
-           &&& forall|t: int| #![trigger ht(d, t)] lo <= t <= hi ==> ht(d, t) == base + (if in_part(ur, t) { usage } else { 0 }) })
-}
-pub open spec fn overlaps<Var>(p: ResourceProfile<Var>, ur: Range<i32>) -> bool { p.start < ur.end && ur.start <= p.end }
-// the left end of the region touched by an insertion, and how far the accumulation has got before profile `c`
-pub open spec fn lo0<Var>(tt: TT<Var>, s: int, ur: Range<i32>) -> int { if ur.start <= tt[s].start { ur.start as int } else { tt[s].start as int } }
-pub open spec fn frontier<Var>(tt: TT<Var>, s: int, e: int, c: int, ur: Range<i32>) -> int {
-    if c == s { lo0(tt, s, ur) - 1 } else if c <= e { tt[c - 1].end as int } else if tt[e].end >= ur.end - 1 { tt[e].end as int } else { ur.end - 1 }
-}
-pub open spec fn conflict_of<Var>(p: ResourceProfile<Var>, ur: Range<i32>, usage: int, capacity: int, c: ResourceProfile<Var>) -> bool {
-    p.height + usage > capacity && c.height == p.height + usage && c.start == spec_max(p.start, ur.start) && c.end == spec_min(p.end, (ur.end - 1) as i32)
-}
-pub open spec fn ins_pre<Var>(tt: TT<Var>, s: int, e: int, ur: Range<i32>, usage: int) -> bool {
-    &&& wf(tt) && 0 <= s <= e < tt.len()
-    &&& i32::MIN < ur.start < ur.end
-    // A-OVERLAP: s..=e are exactly the profiles that overlap the added part
-    &&& forall|i: int| #![trigger tt[i]] s <= i <= e ==> overlaps(tt[i], ur)
-    &&& (s > 0 ==> tt[s - 1].end < ur.start)
-    &&& (e + 1 < tt.len() ==> tt[e + 1].start >= ur.end)
-    // A-TIMES (heights)
-    &&& forall|i: int| #![trigger tt[i]] s <= i <= e ==> i32::MIN <= tt[i].height + usage <= i32::MAX
-}
-// what has been accumulated in `to_add` before profile `c` is looked at
-pub open spec fn acc<Var>(to_add: TT<Var>, tt: TT<Var>, s: int, e: int, c: int, ur: Range<i32>, usage: int) -> bool {
-    &&& wf(to_add)
-    &&& within(to_add, lo0(tt, s, ur), frontier(tt, s, e, c, ur))
-    &&& forall|t: int| #![trigger ht(to_add, t)] ht(to_add, t) == ht(tt.subrange(s, c), t)
-            + (if lo0(tt, s, ur) <= t <= frontier(tt, s, e, c, ur) && in_part(ur, t) { usage } else { 0 })
-}
+//@@SPEC tt_defs.rs@@
 //@@SPEC lemmas/tt_height.rs@@
 pub mod checks { use super::*;
 verus! {
